@@ -632,6 +632,45 @@ def fetchRegionM (t : Tx) (bid off len : Nat) : M String := do
   | _, _ => pure ()
   return exceptStr r
 
+/-- `FetchBlocks`: one `FetchBlock` after the other, the first error wins -/
+def fetchBlocksM (t : Tx) (ids : List Nat) : M String := do
+  let mut outs : List String := []
+  for bid in ids do
+    let r ← fetchBlockM t bid
+    if r.startsWith "err:" then return r
+    outs := outs ++ [r]
+  return "+".intercalate outs
+
+/-- `FetchBlockRegions`: all regions are validated in request order first (pending blocks are
+answered from memory), then the stored ones are read in (file, offset) order -/
+def fetchRegionsM (t : Tx) (rs : List (Nat × Nat × Nat)) : M String := do
+  let d ← get
+  -- phase 1: validation in request order
+  let mut stored : List (Nat × Nat × Nat × Nat) := []   -- (file, offset, index, _)
+  let mut idx := 0
+  for (bid, off, len) in rs do
+    match fetchRegion d t bid off len with
+    | .error e =>
+      -- a read problem (missing file, short read) is only discovered in phase 2
+      if e != "err:DriverSpecific" then return e
+    | .ok _ => pure ()
+    match blockLoc t bid with
+    | some (f, o, _) => stored := stored ++ [(f, o, idx, 0)]
+    | none => pure ()
+    idx := idx + 1
+  -- phase 2: reads sorted by location
+  let sorted := stored.toArray.qsort (fun a b => a.1 < b.1 || (a.1 == b.1 && a.2.1 < b.2.1)) |>.toList
+  for (f, _, i, _) in sorted do
+    if !(← readIo f) then return "err:DriverSpecific"
+    match rs[i]? with
+    | some (bid, off, len) =>
+      match fetchRegion (← get) t bid off len with
+      | .error e => return e
+      | .ok _ => pure ()
+    | none => pure ()
+  let d ← get
+  return "+".intercalate (rs.map (fun (bid, off, len) => exceptStr (fetchRegion d t bid off len)))
+
 def pruneBlocks (id : String) (t : Tx) (target : Nat) : M String := do
   if !t.writable then return "err:TxNotWritable"
   let d ← get
@@ -749,6 +788,18 @@ def step (op : String) : M (Option String) := do
     match nat? bid, nat? off, nat? len with
     | some bid, some off, some len => withTx id fun t => do return some (← fetchRegionM t bid off len)
     | _, _, _ => return none
+  | ["fks", id, ids] =>
+    match (ids.splitOn "+").mapM nat? with
+    | some ids => withTx id fun t => do return some (← fetchBlocksM t ids)
+    | none => return none
+  | ["frs", id, spec] =>
+    let parse (it : String) : Option (Nat × Nat × Nat) :=
+      match it.splitOn "/" with
+      | [a, b, c] => do pure (← nat? a, ← nat? b, ← nat? c)
+      | _ => none
+    match (spec.splitOn "+").mapM parse with
+    | some rs => withTx id fun t => do return some (← fetchRegionsM t rs)
+    | none => return none
   | ["pr", id, target] =>
     match nat? target with
     | some target => withTx id fun t => do return some (← pruneBlocks id t target)
